@@ -549,3 +549,33 @@ Proof.
   - destruct (block2_fails (warning_control_of args) (e_make env) M) as [e [L2 [S2 _]]]. rewrite L2.
     cbn [c_status]. rewrite S2. discriminate.
 Qed.
+
+(* ---- several make_* directives on one path: source order, the last successful writer wins *)
+Definition no_crash (ws : list (N * make_write)) : bool :=
+  forallb (fun pw => match snd pw with WCrash => false | _ => true end) ws.
+
+Lemma emit_disk_snoc : forall ws i disk p w, no_crash ws = true ->
+  emit_disk i (ws ++ [(p, w)]) disk =
+  match w with
+  | WOk => fun q => if N.eqb q p then Some (i + length ws)%nat else emit_disk i ws disk q
+  | _ => emit_disk i ws disk
+  end.
+Proof.
+  induction ws as [|[p0 w0] r IH]; intros i disk p w H; simpl.
+  - destruct w; try reflexivity. rewrite Nat.add_0_r. reflexivity.
+  - simpl in H. destruct w0; simpl in H; try discriminate.
+    + rewrite IH by exact H. destruct w; try reflexivity.
+      replace (S i + length r)%nat with (i + S (length r))%nat by lia. reflexivity.
+    + rewrite IH by exact H. destruct w; try reflexivity.
+      replace (S i + length r)%nat with (i + S (length r))%nat by lia. reflexivity.
+Qed.
+
+Theorem emit_last_writer_wins : forall ws p w disk, no_crash ws = true ->
+  (w = WOk -> emit_disk 0 (ws ++ [(p, w)]) disk p = Some (length ws)) /\
+  (forall q, q <> p \/ w <> WOk -> emit_disk 0 (ws ++ [(p, w)]) disk q = emit_disk 0 ws disk q).
+Proof.
+  intros ws p w disk H. rewrite (emit_disk_snoc ws 0 disk p w H). split.
+  - intros ->. rewrite N.eqb_refl. reflexivity.
+  - intros q [N|N]; destruct w; try reflexivity; try contradiction.
+    destruct (N.eqb_spec q p); [contradiction|reflexivity].
+Qed.
